@@ -482,49 +482,7 @@ fn is_shorthand_binding(m: &Module<()>, g: &scope::Group) -> bool {
   })
 }
 
-/// Hint-dependent expression trees of type Option<int> with exactly `k` internal nodes.
-fn spelling_trees_exact(k: usize) -> Vec<String> {
-  if k == 0 {
-    return vec!["Option.None()".into(), "Option.Some(1)".into(), "d".into()];
-  }
-  let mut out = vec![];
-  for e in spelling_trees_exact(k - 1) {
-    out.push(format!("Main.id({e})"));
-    out.push(format!("{{ let z{k} = 1; {e} }}"));
-    out.push(format!("Main.app(() -> {e})"));
-  }
-  for left in 0..k {
-    let ls = spelling_trees_exact(left);
-    let rs = spelling_trees_exact(k - 1 - left);
-    for a in &ls {
-      for b in &rs {
-        out.push(format!("if c {{ {a} }} else {{ {b} }}"));
-        out.push(format!("match o {{ None -> {a}, Some(_) -> {b} }}"));
-        out.push(format!("Main.first({a}, {b})"));
-      }
-    }
-  }
-  out
-}
-
-const SPELLING_CONTEXTS: [(&str, &str); 10] = [
-  ("closed-parameter", "Main.takeOpt(@)"),
-  ("generic-function-closed-parameter", "Main.pickA(@, 0)"),
-  ("generic-function-closed-parameter-last", "Main.pickB(0, @)"),
-  ("annotated-let", "{ let v: Option<int> = @; Main.takeOpt(v) }"),
-  ("generic-method-of-instantiated-class", "Box.init(1).w(@, 0)"),
-  ("generic-parameter", "Main.size(@)"),
-  ("lambda-result", "Main.app(() -> Main.takeOpt(@))"),
-  ("generic-hof-matching-lambda", "Main.fold2(@, 0, (p, q) -> match p { None -> q, Some(w) -> w + q })"),
-  ("generic-hof-matching-lambda-swapped", "Main.fold3(0, @, (q, p) -> match p { None -> q, Some(w) -> w + q })"),
-  ("generic-hof-half-annotated-lambda", "Main.fold2(@, 0, (p, q: int) -> match p { None -> q, Some(w) -> w + q })"),
-];
-
-fn spelling_module(body: &str) -> String {
-  format!(
-    "class Option<T>(None, Some(T)) {{}}\nclass Box<T>(val v: T) {{\n  method <R> w(a: Option<T>, r: R): int = match a {{ None -> 0, Some(_) -> 1 }}\n}}\nclass Main {{\n  function <T> id(x: T): T = x\n  function <T> first(a: T, b: T): T = a\n  function <T> app(f: () -> T): T = f()\n  function <T> size(a: Option<T>): int = match a {{ None -> 0, Some(_) -> 1 }}\n  function takeOpt(a: Option<int>): int = match a {{ None -> 0, Some(n) -> n + 1 }}\n  function <T> pickA(a: Option<int>, b: T): int = Main.takeOpt(a)\n  function <T> pickB(b: T, a: Option<int>): int = Main.takeOpt(a)\n  function <A, B> fold2(a: A, b: int, f: (A, int) -> B): B = f(a, b)\n  function <A, B> fold3(b: int, a: A, f: (int, A) -> B): B = f(b, a)\n  function run(c: bool, o: Option<bool>, d: Option<int>): int =\n    {body}\n  function main(): unit = {{\n    Process.println(Str.fromInt(Main.run(true, Option.Some(true), Option.Some(5))));\n    Process.println(Str.fromInt(Main.run(false, Option.None(), Option.None())))\n  }}\n}}\n"
-  )
-}
+use vcore::shapes::{SPELLING_CONTEXTS, spelling_module, spelling_trees_exact};
 
 struct Program {
   name: String,
